@@ -50,7 +50,9 @@ TProbe == /\ IsEvent("probe") /\ Probe(Ev.kind, Ev.off) /\ obs'.res = Ev.res
 TFree == /\ IsEvent("free") /\ Free /\ obs'.res = Ev.res
          /\ (Ev.res = "ok" => Ev.unmapped /\ Ev.exit = 0)
 
-TraceNext == TMalloc \/ TBigMalloc \/ TAllocArray \/ TProtect \/ TProbe \/ TFree
+\* the run's environment (memory locking denied or not): no effect on the abstract state - the layout does not depend on mlock
+TEnv == IsEvent("env") /\ UNCHANGED vars
+TraceNext == TMalloc \/ TBigMalloc \/ TAllocArray \/ TProtect \/ TProbe \/ TFree \/ TEnv
 TraceSpec == TraceInit /\ [][TraceNext]_tvars
 TraceAccepted ==
   LET d == TLCGet("stats").diameter IN
